@@ -88,7 +88,8 @@ def make_env(P, servertype, pool):
 
         @P.server.oneway
         def ow(self, token, idiom):
-            time.sleep(0.002)
+            # long enough for the caller's next request to arrive on the same connection meanwhile (Nagle + delayed ACK: ~40 ms)
+            time.sleep(0.06 if hash(token) % 3 == 0 else 0.002)
             snapshot(token, idiom)
             slog.event(token).set()
 
@@ -126,6 +127,7 @@ class Client(threading.Thread):
             serial = p.whoami()
             self.barrier.wait(10)
             n = 0
+            pending_ow = []
             for step in self.ops:
                 op, idiom = step[0], step[1]
                 has_corr = step[2] if len(step) > 2 else True
@@ -216,8 +218,12 @@ class Client(threading.Thread):
                 rec["serial"] = serial
                 self.records.append(rec)
                 if op == "ow":
-                    if not self.slog.event(token).wait(10):
-                        rec["ow_timeout"] = True
+                    # the client moves on at once (the oneway method is still running while later requests arrive on the same connection);
+                    # completions are collected at the end of the history
+                    pending_ow.append((token, rec))
+            for token, rec in pending_ow:
+                if not self.slog.event(token).wait(10):
+                    rec["ow_timeout"] = True
             p._pyroRelease()
         except Exception as x:
             self.error = x
